@@ -28,12 +28,12 @@ Qed.
 Lemma checkout_merge_refuses_unstaged : forall o s p e,
   co_force o = false -> co_keep o = false ->
   In (p, e) (idx s) -> lookup p (wt s) <> Some e ->
-  exists er s', checkout o s = (Some er, s') /\ idx s' = idx s /\ wt s' = wt s.
+  exists er, checkout o s = (Some er, s).
 Proof.
   intros o s p e Hf Hk Hin Hne.
   assert (Hm : co_mode o = Merge) by (unfold co_mode; now rewrite Hf, Hk).
   destruct (checkout o s) as [[er|] s'] eqn:Ec.
-  - exists er, s'. destruct (checkout_err_frame _ _ _ _ Ec) as (_ & A & B & _). auto.
+  - exists er. now rewrite (checkout_err_unchanged _ _ _ _ Ec).
   - exfalso. destruct (checkout_ok _ _ _ Ec ltac:(rewrite Hm; discriminate)) as (c & t & pv & _ & _ & _ & _ & _ & _ & _ & K).
     rewrite (unstaged_true _ _ _ Hin Hne) in K. specialize (K Hm). discriminate.
 Qed.
@@ -99,13 +99,13 @@ Lemma checkout_keep_untouched : forall o s r,
   co_force o = false -> co_keep o = true -> checkout o s = r ->
   idx (snd r) = idx s /\ wt (snd r) = wt s.
 Proof.
-  intros o s r Hf Hk <-. unfold checkout.
-  destruct (checkout_pre o s) as [[e1|] [[[c m] from] s2]] eqn:Ep; cbn [snd].
-  - destruct (checkout_pre_frame _ _ _ _ _ Ep) as (_ & A & B & _). auto.
-  - destruct (checkout_pre_ok _ _ _ _ _ _ Ep) as (-> & _).
-    destruct (checkout_pre_frame _ _ _ _ _ Ep) as (_ & A & B & _).
+  intros o s r Hf Hk <-. destruct (checkout o s) as [[e|] s'] eqn:Ec; cbn [snd].
+  - now rewrite (checkout_err_unchanged _ _ _ _ Ec).
+  - unfold checkout in Ec.
+    destruct (checkout_pre o s) as [[e1|] [[[c m] from] s2]] eqn:Ep; [discriminate|].
+    destruct (checkout_pre_ok _ _ _ _ _ _ Ep) as (-> & _ & _ & _ & A & B & _).
     assert (Hm : co_mode o = Soft) by (unfold co_mode; now rewrite Hf, Hk).
-    rewrite Hm. destruct (reset_soft c from s2 _ eq_refl) as (X & Y). split; congruence.
+    rewrite Hm in Ec. destruct (reset_soft c from s2 _ Ec) as (X & Y). cbn [snd] in X, Y. split; congruence.
 Qed.
 
 (* ---------- witnesses of lost local content (replayed on the real code) *)
